@@ -76,6 +76,9 @@ pub fn u32_walk() -> Vec<u32> {
         v.push(!(1u32 << k));
     }
     v.extend_from_slice(&[0x0102_0304, 0x00FF_FFFF, 0x0000_00FF, 0xFF00_0000]);
+    // one zero byte / one 0xFF byte in each position, the byte-wise sign patterns, and values that read like the
+    // first bytes of an RTCP header
+    v.extend_from_slice(&[0xFF00_FFFF, 0xFFFF_00FF, 0xFFFF_FF00, 0x00FF_0000, 0x0000_FF00, 0x8080_8080, 0x7F7F_7F7F, 0x80C8_0006, 0x81CA_0001]);
     v
 }
 pub fn u64_walk() -> Vec<u64> {
@@ -87,6 +90,8 @@ pub fn u64_walk() -> Vec<u64> {
         v.push(!(1u64 << k));
     }
     v.extend_from_slice(&[0x0102_0304_0506_0708, 0x00FF_FFFF_FFFF_FFFF, 0xFF, 0xFF00_0000_0000_0000]);
+    // the two halves (NTP seconds / fraction) separately all-ones and all-zero, byte holes, sign patterns
+    v.extend_from_slice(&[0xFFFF_FFFF_0000_0000, 0x0000_0000_FFFF_FFFF, 0xFFFF_FF00_FFFF_FFFF, 0xFFFF_FFFF_00FF_FFFF, 0x8080_8080_8080_8080, 0x7FFF_FFFF_8000_0000]);
     v
 }
 pub fn u24_walk() -> Vec<u32> {
